@@ -24,6 +24,7 @@ type PkgCtx struct {
 	contracts *Contracts
 	bvKinds   map[types.BasicKind]bool
 	funcs     map[string]*ssa.Function
+	logged    map[string]bool // callees whose call results are recorded in ghost logs
 	dir       string
 	path      string
 }
@@ -75,6 +76,7 @@ func loadPackages(patterns []string) ([]*PkgCtx, error) {
 		}
 		pk.contracts = cs
 		pk.bvKinds = cs.BVKinds
+		pk.logged = cs.Logged
 		out = append(out, pk)
 	}
 	return out, nil
